@@ -358,6 +358,41 @@ func (g *sessGen) next() *sessStep {
 			st.FailStore = r.P(15)
 		case n < 97:
 			st.K, st.Sid = "abort", h
+			if r.P(55) {
+				// an index operation directly on the open transaction first (C15: abort leaves no trace)
+				st.K = "idxabort"
+				st.C = &sessCall{Coll: g.coll()}
+				// drop an index the view has (half of the time, if there is one), else create one
+				var have [][2]string
+				for _, coll := range sessColls {
+					if ns := view.Namespaces[lungo.Handle{sessDB, coll}]; ns != nil {
+						names := make([]string, 0, len(ns.Indexes))
+						for name := range ns.Indexes {
+							if name != "_id_" {
+								names = append(names, name)
+							}
+						}
+						sort.Strings(names)
+						for _, name := range names {
+							have = append(have, [2]string{coll, name})
+						}
+					}
+				}
+				switch {
+				case len(have) > 0 && r.P(50):
+					x := have[r.N(len(have))]
+					st.C.Coll, st.C.M, st.C.Name = x[0], "dropIndex", x[1]
+					if r.P(25) {
+						st.C.M, st.C.Name = "dropAllIndexes", ""
+					}
+				case r.P(12):
+					st.C.M, st.C.Name = "dropIndex", []string{"_id_", "nope_1"}[r.N(2)]
+				default:
+					st.C.M = "createIndex"
+					st.C.Keys = bson.D{{Key: g.key(), Value: int32(1 - 2*r.N(2))}}
+					st.C.Unique = r.P(60)
+				}
+			}
 		default:
 			st.K, st.Sid = "end", h
 		}
@@ -434,7 +469,7 @@ func sessStepOfReq(r reqObj) (st *sessStep, err error) {
 	if n, ok := r["sid"].(json.Number); ok {
 		st.Sid = int(sessInt(n))
 	}
-	if st.K != "call" {
+	if st.K != "call" && !(st.K == "idxabort" && r.str("m") != "") {
 		return st, nil
 	}
 	c := &sessCall{M: r.str("m")}
